@@ -340,6 +340,11 @@ def run(pid, tier, replay=None):
     if pid in ("C03", "C04", "C10", "C11", "C12", "C18"):
         if pid == "C12":
             layout_family(chk, tier)
+        if pid == "C11":
+            t, i = DM.label_traces(chk, 3)
+            chk.exhaustive_parts.append("MC_Labels: label pipeline on every pair of keys of <=3 characters over a 7-character alphabet "
+                                        "(valid identifiers; equal labels only for fold-equal keys); every key replayed on prepare_label")
+            chk.validate("Trace_Labels", t, i, shard=2)
         module_family(pid, tier, chk)
         return chk.finish()
     if pid in ("C16", "C17"):
